@@ -181,3 +181,9 @@ func splitNul(b []byte) []string {
 	}
 	return out
 }
+
+// SetOwnerMode changes permission bits and owner of an existing node.
+func SetOwnerMode(p string, perm, uid, gid uint32) {
+	must(os.Lchown(p, int(uid), int(gid)))
+	must(syscall.Chmod(p, perm&07777))
+}
